@@ -88,9 +88,15 @@ def run(ck, ctx):
                   (f"in `{hit[0]} -> {' '.join(hit[1])}` this position holds a string literal ({hit[2]}): `.{node.func.attr}()` rewrites "
                    "the characters of the literal" if hit else "the position never holds a string literal"), f.loc(node))
     ck.count("string_method_sites_on_production_positions", n_sites)
-    ck.assumptions += ["words (including whole quoted literals) are separated as pre_process_data intends; what the pre-processor does to "
-                       "the characters of a literal is NOT decided (the property text itself records that literals containing `', '`, "
-                       "`(`, `=` or non-ASCII letters come back altered - a defect of the line pre-processor outside this family's reach)"]
+    # ---- E7: the characters of a literal through the line pre-processing (pre_process_data, line formation, line machine)
+    from ..specs import lines as L
+    L.check_literals(ck, ctx)
+    ck.floor("O-literal", 20)
+    ck.assumptions += ["the pre-processing of literals is decided at class level (E7): 25 classes of literal content (one feature each: blanks, "
+                       "comma, parentheses, equals, semicolon, comment markers, hash, keywords, statement words, non-ASCII, doubled quote, "
+                       "double quotes, dot, colon / slash, tab, digits) in four positions; combinations of features and other positions are "
+                       "not explored",
+                       "after the pre-processing a whole quoted literal is one word for the lexer (decided by the fragments above)"]
 
 
 def _parent(root, node):
